@@ -299,6 +299,12 @@ def is_valid_ip(ip: str) -> bool:
         # getaddrinfo resolves empty strings to localhost, and truncates
         # on zero bytes.
         return False
+    if not ip.isascii():
+        # getaddrinfo passes non-ASCII text through the idna codec, whose
+        # compatibility normalization turns characters such as
+        # superscript or full-width digits into ASCII digits
+        # ("10.\u00b2.0.0" would be taken for "10.2.0.0").
+        return False
     try:
         res = socket.getaddrinfo(
             ip, 0, socket.AF_UNSPEC, socket.SOCK_STREAM, 0, socket.AI_NUMERICHOST
